@@ -204,6 +204,32 @@ class IASolverBaseClass:  # pylint: disable=R0902
         return self._full_F
 
     # noinspection PyUnresolvedReferences
+    @staticmethod
+    def _to_array_of_matrices(
+            matrices: Optional[Sequence[np.ndarray]]
+    ) -> Optional[np.ndarray]:
+        """
+        Get a 1D numpy array (of objects) with the provided matrices.
+
+        Parameters
+        ----------
+        matrices : np.ndarray | list[np.ndarray], optional
+            The matrices (one 2D numpy array for each user).
+
+        Returns
+        -------
+        np.ndarray
+            A 1D numpy array where each element is one of the matrices.
+        """
+        if matrices is None:
+            return None
+        if isinstance(matrices, np.ndarray) and matrices.dtype == object:
+            return matrices
+        out = np.empty(len(matrices), dtype=np.ndarray)
+        for k, matrix in enumerate(matrices):
+            out[k] = matrix
+        return out
+
     def set_precoders(self,
                       F: Optional[Sequence[np.ndarray]] = None,
                       full_F: Optional[Sequence[np.ndarray]] = None,
@@ -237,9 +263,13 @@ class IASolverBaseClass:  # pylint: disable=R0902
         self._clear_precoder_filter()
 
         if P is not None:
-            self._P = P
+            # Use the property setter, so that a scalar or a list is
+            # stored as a numpy array with the power of each user
+            self.P = P
 
-        self._full_F = full_F
+        # The precoders are stored as 1D numpy arrays of 2D numpy arrays
+        # (they may be provided as lists)
+        self._full_F = self._to_array_of_matrices(full_F)
 
         if F is None:
             assert (full_F is not None)
@@ -248,7 +278,7 @@ class IASolverBaseClass:  # pylint: disable=R0902
             for k in range(K):
                 self._F[k] = full_F[k] / np.linalg.norm(full_F[k], 'fro')
         else:
-            self._F = F
+            self._F = self._to_array_of_matrices(F)
 
         # Update the number of streams
         self._Ns = np.empty(self.K, dtype=int)
